@@ -448,6 +448,46 @@ def le(b, off, k):
     return int.from_bytes(bytes(b[off:off + k]).ljust(k, b'\0'), 'little')
 
 
+def re_lang(pattern, flags=0, mode='full'):
+    from . import regex
+    if not isinstance(pattern, str):
+        flags = flags or pattern.flags & ~32     # drop the implicit UNICODE
+        pattern = pattern.pattern
+    return regex.Lang(pattern, int(flags), mode)
+
+
+def in_lang(s, lang):
+    return lang.contains(s)
+
+
+def parses_as_float(s):
+    try:
+        float(s)
+        return True
+    except ValueError:
+        return False
+
+
+def parses_as_int(s):
+    try:
+        int(s)
+        return True
+    except ValueError:
+        return False
+
+
+def float_of(s):
+    return float(s)
+
+
+def int_of(s):
+    return int(s)
+
+
+def strlen(s):
+    return len(s)
+
+
 def log_count(level=None):
     recs = _c().log_records
     if level is None:
